@@ -4,7 +4,7 @@ from evalutil import *
 
 ID = "C06"
 LEVEL = "proof"
-MODULES = ["H3Proofs.Props.C06", "H3Proofs.Props.C06Spec", "H3Proofs.Props.C06H3", "H3Proofs.Props.C06Hash", "H3Proofs.Props.C06Refine", "H3Proofs.Props.C06Final"]
+MODULES = ["H3Proofs.Props.C06", "H3Proofs.Props.C06Spec", "H3Proofs.Props.C06H3", "H3Proofs.Props.C06Hash", "H3Proofs.Props.C06Refine", "H3Proofs.Props.C06Final", "H3Proofs.Props.C06Total"]
 THEOREMS = "auto"
 ASSUMPTIONS = ["layout-faithful model of compactCells (hash table with parent % n probing, reserved-bit counters, "
                "exact output slots) and uncompactCells tied to the code by exact array correspondence"]
@@ -12,11 +12,14 @@ ASSUMPTIONS.append("the layout-faithful compactCells model (hash table with pare
                    "pentagon adjustment, rounds) is PROVED to compute the canonical compaction whenever it returns successfully "
                    "(C06Final.compactCells_canonical: output = Compact h3Forest of the input set; lossless; every input cell under "
                    "exactly one output cell; no complete sibling family; order independent) - partial correctness")
-NOT_PROVED = ["that compactCells never takes an error branch (E_FAILED probe-limit checks, E_DUPLICATE_INPUT) on duplicate-free "
-              "valid same-resolution input: total correctness needs a counting (pigeonhole) argument on the table occupancy; "
-              "exercised by the correspondence runs (the C function and the model must both succeed)",
+ASSUMPTIONS.append("total correctness (C06Total.compactCells_total): on a duplicate-free array of valid cells of one resolution, with no "
+                   "allocation failure, the model never takes an error branch (probe-limit E_FAILED, E_DUPLICATE_INPUT): occupancy / "
+                   "pigeonhole argument on the open-addressing table, every round")
+NOT_PROVED = ["inputs outside the precondition (mixed resolutions, invalid cells, duplicates): the theorems are stated for duplicate-free "
+              "valid cells of one resolution; what the C function does elsewhere (error codes) is covered by exact correspondence only",
               "uncompactCells = concatenation of the children lists is by definition of the model (children theorems of C04 apply)"]
-EXPLANATION = ("refinement theorem: the layout-faithful hash-table model computes the canonical compaction whenever it succeeds "
+EXPLANATION = ("total correctness: on duplicate-free valid same-resolution input the layout-faithful hash-table model succeeds (no error branch, "
+               "occupancy argument) and computes the canonical compaction "
                "(all sets, all orders, all allocation schedules), set-level theorems (lossless, antichain, no full family), "
                "bounds/error theorems; exact array correspondence of compactCells; the evaluator checks "
                "round trip, antichain, no complete sibling family, validity, size and order independence on the real "
